@@ -494,12 +494,23 @@ def tomlPick {α : Type} (order : List Str) (present : List (Str × List α)) : 
 def dictSet {α : Type} (d : List (Str × α)) (k : Str) (v : α) : List (Str × α) :=
   if d.any (fun p => p.1 == k) then d.map (fun p => if p.1 == k then (k, v) else p) else d ++ [(k, v)]
 
-/-- `IniConfigParser.parse` over the sections of the file (in file order): every section named in
-`sections` contributes, later ones overwrite; a refused value refuses the file. -/
+def defaultSect : Str := "DEFAULT".toList
+
+/-- `config[section].items()`: the section's own keys, then the keys of `[DEFAULT]` the section does not set
+(configparser hands the `[DEFAULT]` entries to every section) -/
+def sectionItems (defaults : List (Str × Str)) (own : List (Str × Str)) : List (Str × Str) :=
+  own ++ defaults.filter fun d => !(own.any fun o => o.1 == d.1)
+
+/-- `IniConfigParser.parse` over the sections of the file (in file order, `[DEFAULT]` last): every section named
+in `sections` contributes (with the `[DEFAULT]` entries it inherits), later ones overwrite; a refused value
+refuses the file.  `file` lists the sections as written; the one called `DEFAULT` is configparser's default section. -/
 def iniItemsOld (interp : Str → InterpR) (splitMl : Bool) (sections : List Str)
     (file : List (Str × List (Str × Str))) : Option (Option (List (Str × FileVal))) :=
   -- none = unmodelled, some none = refused
-  let entries := (file.filter (fun s => sections.contains s.1)).flatMap (·.2)
+  let defaults := (file.filter (fun s => s.1 == defaultSect)).flatMap (·.2)
+  let named := file.filter (fun s => s.1 != defaultSect && sections.contains s.1)
+  let entries := named.flatMap (fun s => sectionItems defaults s.2) ++
+    (if sections.contains defaultSect then defaults else [])
   entries.foldl (fun acc kv =>
     match acc with
     | some (some d) =>
